@@ -332,6 +332,17 @@ func init() {
 		}
 		return "ok:" + utoa(uint64(c.RelayerConfig.HealthPort)) + ":" + utoa(uint64(c.RelayerConfig.MpcConfig.Port))
 	}
+	// porttext / portbase / portbasex <h|m> <d|f|e> <hex text>  => ok:<healthPort>:<mpcPort> | err   (any text as the port;
+	// portbase = texts that base-0 parsing reads differently from decimal, judged strictly (KNOWN FINDING); portbasex = the
+	// same texts with that point excused)
+	portText := func(a []string) string {
+		c, err := c20Load(a[1], map[string]string{a[0]: string(unhx(a[2]))}, nil, nil)
+		if err != nil {
+			return "err"
+		}
+		return "ok:" + utoa(uint64(c.RelayerConfig.HealthPort)) + ":" + utoa(uint64(c.RelayerConfig.MpcConfig.Port))
+	}
+	ops["C20.porttext"], ops["C20.portbase"], ops["C20.portbasex"] = portText, portText, portText
 	ops["C20.chain"] = c20Chain
 	ops["C20.retrywrap"] = func(a []string) string { return c20Chain([]string{a[0], "f", "_", "_", "_", a[1]}) }
 	mergeOp := func(a []string) string {
@@ -344,6 +355,16 @@ func init() {
 		return c20ShowChains(c.ChainConfigs)
 	}
 	ops["C20.merge"], ops["C20.mergeclash"], ops["C20.mergeexc"] = mergeOp, mergeOp, mergeOp
+	// str <field> <d|f|e> <hex value>  => ok:<hex of the loaded string> | err
+	ops["C20.str"] = func(a []string) string {
+		c, err := c20LoadStr(a[1], a[0], string(unhx(a[2])))
+		if err != nil {
+			return "err"
+		}
+		return "ok:" + hx([]byte(c20GetStr(c.RelayerConfig, a[0])))
+	}
+	// numstr <evm|sub|btc> <field> <hex text>  => ok:<decimal value loaded> | err   (the setting written as a JSON string)
+	ops["C20.numstr"] = func(a []string) string { return c20NumStr(a[0], a[1], string(unhx(a[2]))) }
 	ops["C20.dur"] = func(a []string) string {
 		st := map[string]string{}
 		if a[2] != "-" {
@@ -362,6 +383,237 @@ func init() {
 		return "ok:" + strconv.FormatInt(d, 10)
 	}
 	gens["C20"] = genC20
+}
+
+// ---- string-valued relayer settings: what is loaded must be exactly the string written
+
+var c20StrFields = []string{"otel", "logfile", "env", "id", "keyshare", "frostkeyshare", "key", "enckey", "topourl", "topopath", "upurl", "uptoken"}
+
+type c20StrInfo struct {
+	env  string
+	path []string // mapstructure path inside "relayer"
+}
+
+var c20StrTable = map[string]c20StrInfo{
+	"otel":          {"SYG_RELAYER_OPENTELEMETRYCOLLECTORURL", []string{"OpenTelemetryCollectorURL"}},
+	"logfile":       {"SYG_RELAYER_LOGFILE", []string{"LogFile"}},
+	"env":           {"SYG_RELAYER_ENV", []string{"Env"}},
+	"id":            {"SYG_RELAYER_ID", []string{"Id"}},
+	"keyshare":      {"SYG_RELAYER_MPCCONFIG_KEYSHAREPATH", []string{"MpcConfig", "KeysharePath"}},
+	"frostkeyshare": {"SYG_RELAYER_MPCCONFIG_FROSTKEYSHAREPATH", []string{"MpcConfig", "FrostKeysharePath"}},
+	"key":           {"SYG_RELAYER_MPCCONFIG_KEY", []string{"MpcConfig", "Key"}},
+	"enckey":        {"SYG_RELAYER_MPCCONFIG_TOPOLOGYCONFIGURATION_ENCRYPTIONKEY", []string{"MpcConfig", "TopologyConfiguration", "EncryptionKey"}},
+	"topourl":       {"SYG_RELAYER_MPCCONFIG_TOPOLOGYCONFIGURATION_URL", []string{"MpcConfig", "TopologyConfiguration", "Url"}},
+	"topopath":      {"SYG_RELAYER_MPCCONFIG_TOPOLOGYCONFIGURATION_PATH", []string{"MpcConfig", "TopologyConfiguration", "Path"}},
+	"upurl":         {"SYG_RELAYER_UPLOADERCONFIG_URL", []string{"uploaderConfig", "url"}},
+	"uptoken":       {"SYG_RELAYER_UPLOADERCONFIG_AUTHTOKEN", []string{"uploaderConfig", "authToken"}},
+}
+
+func c20GetStr(rc relayer.RelayerConfig, f string) string {
+	switch f {
+	case "otel":
+		return rc.OpenTelemetryCollectorURL
+	case "logfile":
+		return rc.LogFile
+	case "env":
+		return rc.Env
+	case "id":
+		return rc.Id
+	case "keyshare":
+		return rc.MpcConfig.KeysharePath
+	case "frostkeyshare":
+		return rc.MpcConfig.FrostKeysharePath
+	case "key":
+		return rc.MpcConfig.Key
+	case "enckey":
+		return rc.MpcConfig.TopologyConfiguration.EncryptionKey
+	case "topourl":
+		return rc.MpcConfig.TopologyConfiguration.Url
+	case "topopath":
+		return rc.MpcConfig.TopologyConfiguration.Path
+	case "upurl":
+		return rc.UploaderConfig.URL
+	case "uptoken":
+		return rc.UploaderConfig.AuthToken
+	}
+	panic("field " + f)
+}
+
+func c20SetStrRaw(r *relayer.RawRelayerConfig, f, v string) {
+	switch f {
+	case "otel":
+		r.OpenTelemetryCollectorURL = v
+	case "logfile":
+		r.LogFile = v
+	case "env":
+		r.Env = v
+	case "id":
+		r.Id = v
+	case "keyshare":
+		r.MpcConfig.KeysharePath = v
+	case "frostkeyshare":
+		r.MpcConfig.FrostKeysharePath = v
+	case "key":
+		r.MpcConfig.Key = v
+	case "enckey":
+		r.MpcConfig.TopologyConfiguration.EncryptionKey = v
+	case "topourl":
+		r.MpcConfig.TopologyConfiguration.Url = v
+	case "topopath":
+		r.MpcConfig.TopologyConfiguration.Path = v
+	case "upurl":
+		r.UploaderConfig.URL = v
+	case "uptoken":
+		r.UploaderConfig.AuthToken = v
+	default:
+		panic("field " + f)
+	}
+}
+
+// c20LoadStr loads a relayer config in which exactly one string setting is written as v, through one loader.
+func c20LoadStr(loader, f, v string) (*config.Config, error) {
+	info := c20StrTable[f]
+	switch loader {
+	case "d":
+		r := c20Raw()
+		c20SetStrRaw(&r, f, v)
+		return config.VerifProcessRawConfig(config.RawConfig{RelayerConfig: r}, nil)
+	case "f":
+		rel := map[string]interface{}{
+			"MpcConfig": map[string]interface{}{"TopologyConfiguration": map[string]interface{}{"EncryptionKey": "k", "Url": "u", "Path": "p"}},
+		}
+		m := rel
+		for _, seg := range info.path[:len(info.path)-1] {
+			if _, ok := m[seg]; !ok {
+				m[seg] = map[string]interface{}{}
+			}
+			m = m[seg].(map[string]interface{})
+		}
+		m[info.path[len(info.path)-1]] = v
+		b, err := json.Marshal(map[string]interface{}{"relayer": rel})
+		if err != nil {
+			panic(err)
+		}
+		fh, err := os.CreateTemp("", "verif-c20-*.json")
+		if err != nil {
+			panic(err)
+		}
+		defer os.Remove(fh.Name())
+		fh.Write(b)
+		fh.Close()
+		return config.GetConfigFromFile(fh.Name(), nil)
+	case "e":
+		set := map[string]string{
+			"SYG_RELAYER_MPCCONFIG_TOPOLOGYCONFIGURATION_ENCRYPTIONKEY": "k",
+			"SYG_RELAYER_MPCCONFIG_TOPOLOGYCONFIGURATION_URL":           "u",
+			"SYG_RELAYER_MPCCONFIG_TOPOLOGYCONFIGURATION_PATH":          "p",
+		}
+		set[info.env] = v
+		for k, x := range set {
+			if err := os.Setenv(k, x); err != nil {
+				panic(err)
+			}
+		}
+		defer func() {
+			for k := range set {
+				os.Unsetenv(k)
+			}
+		}()
+		return config.GetConfigFromENV(nil)
+	}
+	panic("loader " + loader)
+}
+
+// ---- numeric settings of the chain configs given as STRINGS
+
+var c20NumFields = map[string][]string{
+	"evm": {"maxGasPrice", "gasMultiplier", "gasIncreasePercentage", "gasLimit", "transferGas", "startBlock", "blockConfirmations", "blockInterval", "blockRetryInterval"},
+	"sub": {"chainID", "startBlock", "blockInterval", "blockRetryInterval", "substrateNetwork", "tip"},
+	"btc": {"startBlock", "blockInterval", "blockRetryInterval", "blockConfirmations", "feeAmount"},
+}
+
+const c20BtcAddr = "1A1zP1eP5QGefi2DMPTfTL5SLmv7DivfNa"
+
+func c20NumStr(kind, field, val string) string {
+	m := map[string]interface{}{"id": 1, "name": "c", "endpoint": "ws://e", "type": kind}
+	if field != "feeAmount" {
+		m[field] = val
+	}
+	switch kind {
+	case "evm":
+		m["bridge"] = "0xb"
+		c, err := evm.NewEVMConfig(m)
+		if err != nil {
+			return "err"
+		}
+		switch field {
+		case "maxGasPrice":
+			return "ok:" + c.MaxGasPrice.String()
+		case "gasMultiplier":
+			return "ok:" + c.GasMultiplier.Text('g', -1)
+		case "gasIncreasePercentage":
+			return "ok:" + c.GasIncreasePercentage.String()
+		case "gasLimit":
+			return "ok:" + c.GasLimit.String()
+		case "transferGas":
+			return "ok:" + utoa(c.TransferGas)
+		case "startBlock":
+			return "ok:" + c.StartBlock.String()
+		case "blockConfirmations":
+			return "ok:" + c.BlockConfirmations.String()
+		case "blockInterval":
+			return "ok:" + c.BlockInterval.String()
+		case "blockRetryInterval":
+			return "ok:" + strconv.FormatInt(int64(c.BlockRetryInterval), 10)
+		}
+	case "sub":
+		c, err := substrate.NewSubstrateConfig(m)
+		if err != nil {
+			return "err"
+		}
+		switch field {
+		case "chainID":
+			return "ok:" + c.ChainID.String()
+		case "startBlock":
+			return "ok:" + c.StartBlock.String()
+		case "blockInterval":
+			return "ok:" + c.BlockInterval.String()
+		case "blockRetryInterval":
+			return "ok:" + strconv.FormatInt(int64(c.BlockRetryInterval), 10)
+		case "substrateNetwork":
+			return "ok:" + utoa(uint64(c.SubstrateNetwork))
+		case "tip":
+			return "ok:" + utoa(c.Tip)
+		}
+	case "btc":
+		m["username"], m["password"], m["feeAddress"] = "u", "p", c20BtcAddr
+		if field == "feeAmount" {
+			m["resources"] = []interface{}{map[string]interface{}{
+				"address": c20BtcAddr, "resourceID": "0x0000000000000000000000000000000000000000000000000000000000000300",
+				"feeAmount": val, "tweak": "t", "script": "51",
+			}}
+		}
+		c, err := btcConfig.NewBtcConfig(m)
+		if err != nil {
+			return "err"
+		}
+		switch field {
+		case "feeAmount":
+			if len(c.Resources) != 1 {
+				return "ok:noresource"
+			}
+			return "ok:" + c.Resources[0].FeeAmount.String()
+		case "startBlock":
+			return "ok:" + c.StartBlock.String()
+		case "blockInterval":
+			return "ok:" + c.BlockInterval.String()
+		case "blockRetryInterval":
+			return "ok:" + strconv.FormatInt(int64(c.BlockRetryInterval), 10)
+		case "blockConfirmations":
+			return "ok:" + c.BlockConfirmations.String()
+		}
+	}
+	panic("numstr " + kind + " " + field)
 }
 
 func c20IdNum(v interface{}) (float64, bool) {
@@ -629,5 +881,78 @@ func genC20(g *G) {
 			t += utoa(v) + g.Pick(units)
 		}
 		g.Emit("dur", g.Pick(c20DurFields), g.Pick([]string{"d", "f", "e"}), hs(t))
+	}
+	// --- string settings: the loaded string must be exactly the string written, through every loader
+	long := strings.Repeat("k3y=", 1500)
+	svals := []string{"", "plain", "abcQ==", "Zm9vYmFy=", "=", "==", "=lead", "trail=", "a=b=c", "http://host:8080/path?env=test&v=2", "a:b", "a,b,c", "a b", " lead",
+		"trail ", "  both  ", "\ttab\t", "line\nbreak", "a\"b", "it's", "#hash", "a#b", "ключ=значення", "日本語", "é", "a\\b", "{\"a\":1}", "[1,2]",
+		"SYG_RELAYER_ID=x", "$HOME", "%s%d", "<&>", "null", "true", "0", "0x10", "-", "--", "_", "a_b", long, long + "="}
+	for _, f := range c20StrFields {
+		for _, l := range []string{"d", "f", "e"} {
+			for _, v := range svals {
+				g.Emit("str", f, l, hs(v))
+			}
+		}
+	}
+	frag := []string{"=", "==", ":", ",", " ", "\"", "'", "#", "é", "ж", "a", "Z", "0", "/", "?", "&", "\\", "\t", "_", "-", "SYG", "{", "}"}
+	for i := 0; i < g.Count(400, 20000); i++ {
+		v := ""
+		for j := 0; j <= g.Intn(8); j++ {
+			v += g.Pick(frag)
+		}
+		g.Emit("str", g.Pick(c20StrFields), g.Pick([]string{"d", "f", "e"}), hs(v))
+	}
+	// --- numeric settings written as STRINGS: decimal value or failure, never another base
+	nvals := []string{"", "0", "00", "5", "100", "0100000", "010", "017", "08", "0777", "0x10", "0X10", "0b11", "0B11", "0o17", "0O17", "1_000", "0_8", "_1",
+		"+5", "-5", "+0", "-0", "+010", "-010", "+-5", "1e3", "1E3", "1e+3", "5.0", "5.", ".5", " 5", "5 ", " 5 ", "\t5", "5\n", "٣", "５", "0x", "x10", "1,000",
+		"250000", "15000000", "500000000000", "18446744073709551615", "18446744073709551616", "99999999999999999999999999", "-99999999999999999999999999",
+		"NaN", "Inf", "true", "null"}
+	for _, k := range []string{"evm", "sub", "btc"} {
+		for _, f := range c20NumFields[k] {
+			for _, v := range nvals {
+				g.Emit("numstr", k, f, hs(v))
+			}
+		}
+	}
+	for i := 0; i < g.Count(300, 20000); i++ {
+		v := g.Pick([]string{"", "", "+", "-", "0", "00", "0x", "0b", "0o"})
+		for j := 0; j <= g.Intn(7); j++ {
+			v += g.Pick([]string{"0", "1", "7", "8", "9", "0", "1", "7", "_", "e", " "}[:8+g.Intn(4)])
+		}
+		g.Emit("numstr", "btc", "feeAmount", hs(v))
+	}
+	// --- port TEXTS (the setting is a string): plain decimals strictly; anything base-0 parsing may read differently
+	// (leading zeros, 0x / 0b / 0o, underscores, signs, blanks, exponents) as the pair portbase (known finding) + portbasex
+	ptexts := []string{"0", "1", "80", "8080", "65535", "65536", "99999", "00", "007", "010", "017", "0100000", "08080", "0777", "0177777", "0200000",
+		"0x50", "0X50", "0x1F90", "0xffff", "0x10000", "0x", "0b11", "0B1111111111111111", "0b10000000000000000", "0b2", "0o17", "0O177777", "0o200000", "0o8",
+		"1_000", "6_5_5_3_5", "1__0", "_1", "1_", "0_17", "0_8", "0x_1", "0x1_", "0b_1_0", "+5", "-5", "+0x10", " 80", "80 ", "8 0", "1e3", "80.0", "٨٠", "８０",
+		"0x1_0000", "00000000000000000000080", "000000000000000000000010"}
+	emitPort := func(w, l, t string) {
+		plain := t != "" && (t[0] != '0' || len(t) == 1)
+		for _, c := range []byte(t) {
+			if c < '0' || c > '9' {
+				plain = false
+			}
+		}
+		if plain {
+			g.Emit("porttext", w, l, hs(t))
+			return
+		}
+		g.Emit("portbase", w, l, hs(t))
+		g.Emit("portbasex", w, l, hs(t))
+	}
+	for _, w := range []string{"h", "m"} {
+		for _, l := range []string{"d", "f", "e"} {
+			for _, t := range ptexts {
+				emitPort(w, l, t)
+			}
+		}
+	}
+	for i := 0; i < g.Count(500, 30000); i++ {
+		t := g.Pick([]string{"", "", "0", "00", "0x", "0X", "0b", "0o", "+", "-"})
+		for j := 0; j <= g.Intn(6); j++ {
+			t += g.Pick([]string{"0", "1", "7", "8", "9", "5", "f", "F", "_", "a", "x", " "}[:6+g.Intn(7)])
+		}
+		emitPort(g.Pick([]string{"h", "m"}), g.Pick([]string{"d", "f", "e"}), t)
 	}
 }
